@@ -277,9 +277,55 @@ def _vec_effects(ctx, lib, adt, fname, allowed, rule):
                         continue
                     if c.local:
                         continue   # passed on to crate code: that code is analysed on its own parameter
+                    if base == "core::ops::IndexMut::index_mut" and _only_into_cell(vw.body, tj):
+                        # `self.states[i].get_mut()`: the element is a RefCell and the `&mut` element is used for nothing but
+                        # RefCell::get_mut — the same access as `.borrow_mut()`; the element itself is not replaced
+                        continue
                     ctx.bad(rule, vw.body, "effect:%s.%s:%s" % (adt.split("::")[-1], fname, c.name), vw.body.loc(bi),
                             "%s.%s may only be %s here; found call %s" % (adt, fname, "/".join(k.split("::")[-1] for k in allowed) or "read", c.key))
     ctx.note("vec_effect_sites:%s.%s" % (adt.split("::")[-1], fname), n)
+
+
+def _only_into_cell(body, tj):
+    """the result of this call (a `&mut RefCell<_>`) flows, through plain moves / reborrows, only into RefCell::get_mut"""
+    d = tj.get("dest")
+    if d is None or d["proj"]:
+        return False
+    work, seen, sinks = [d["local"]], set(), 0
+    while work:
+        l = work.pop()
+        if l in seen:
+            continue
+        seen.add(l)
+        for bi in body.live_blocks():
+            blk = body.blocks[bi]
+            for st in blk["stmts"]:
+                if st["k"] != "assign":
+                    continue
+                uses = [pl for pl in core._places(st["rv"], []) if pl.get("local") == l]
+                if not uses:
+                    continue
+                rv = st["rv"]
+                plain = (rv["k"] == "use" and rv["op"]["k"] in ("move", "copy") and not rv["op"]["place"]["proj"]) or \
+                    (rv["k"] == "ref" and rv["place"]["proj"] == [{"k": "deref"}]) or \
+                    (rv["k"] == "ref" and len(rv["place"]["proj"]) == 1 and rv["place"]["proj"][0]["k"] == "deref")
+                if plain and not st["lhs"]["proj"]:
+                    work.append(st["lhs"]["local"])
+                else:
+                    return False
+            t = blk["term"]
+            if t["k"] == "call":
+                for a in t["args"]:
+                    if a["k"] in ("move", "copy") and a["place"]["local"] == l:
+                        fn_ = t["func"].get("fn") if isinstance(t.get("func"), dict) else None
+                        if fn_ is not None and fn_.get("path", "").endswith("RefCell::<T>::get_mut") or \
+                                (fn_ is not None and core.Callee(fn_).key.split("@")[0] == "core::cell::RefCell::get_mut"):
+                            sinks += 1
+                        else:
+                            return False
+                if t.get("dest") is not None and t["dest"]["local"] == l and t is not tj and t["dest"] is not d:
+                    pass
+    return sinks >= 1
 
 
 # ----------------------------------------------------------------------------- fail passes
